@@ -8,6 +8,8 @@ Same model and spec as C06 (`Model/Builder.lean`, `Spec/TlbVal.lean`).  `Inv b` 
 -/
 import TonVerif.Proofs.Typed
 import TonVerif.Proofs.OrdCell
+import TonVerif.Proofs.SrcArith
+import TonVerif.Generated.Capacity
 
 namespace TonVerif.Properties.C07
 open TonVerif TonVerif.Model TonVerif.Spec.Tlb TonVerif.Proofs.Builder TonVerif.Proofs.Slice
@@ -127,5 +129,86 @@ example : let b : Builder Nat := ⟨List.replicate 1020 false, [1, 2, 3, 4]⟩
 /-- a history with failing and succeeding operations (hypothesis-free theorem, shown on an instance) -/
 example : (runAll [Op.val (.uint 8 300), Op.val (.uint 8 200), Op.cell [true] [1, 2, 3, 4, 5], Op.val (.ref 1)]
     (Builder.empty : Builder Nat)).refs.length ≤ 4 := (c07_history_bounds _).2
+
+/-! ## Source-regenerated arithmetic (`Generated/Capacity.lean`: re-translated from tvm_bitarray.py / builder.py on every run)
+
+`Generated.bitsOverflow / bitsUnderflow` are `TvmBitarray.check_overflow / check_underflow` read as "raises";
+`sizeTooLarge` is the constructor's size test; `refsFull`, `cellRefsOverflow`, `sliceRefsOverflow` are the reference
+capacity tests of `Builder.store_ref / store_cell / store_slice`. -/
+section Src
+open TonVerif.Proofs.SrcArith
+set_option linter.unusedSimpArgs false
+
+/-- data capacity: `check_overflow` raises exactly when the bits would exceed 1023 — so an accepted write keeps
+`used + length ≤ 1023` (the bound of `c07_invariant`) and a refused one would have broken it. -/
+theorem c07_src_bits_capacity (used length : Nat) :
+    Generated.bitsOverflow_sideOk used length ∧
+    (Generated.bitsOverflow used length = false ↔ used + length ≤ 1023) ∧
+    Generated.bitsOverflow used length = decide (used + length > 1023) := by
+  refine ⟨by simp only [Generated.bitsOverflow_sideOk]; src_arith, ?_, ?_⟩
+  · simp only [Generated.bitsOverflow, decide_eq_false_iff_not]; split <;> simp <;> omega
+  · simp only [Generated.bitsOverflow, decide_eq_decide]; split <;> simp <;> omega
+
+/-- reference capacity: `store_ref` raises exactly at 4 references, `store_cell` / `store_slice` exactly when the total
+would exceed 4. -/
+theorem c07_src_refs_capacity (refs more : Nat) :
+    (Generated.refsFull_sideOk refs ∧ Generated.cellRefsOverflow_sideOk refs more ∧ Generated.sliceRefsOverflow_sideOk refs more) ∧
+    (Generated.refsFull refs = false ↔ refs + 1 ≤ 4) ∧
+    (Generated.cellRefsOverflow refs more = false ↔ refs + more ≤ 4) ∧
+    (Generated.sliceRefsOverflow refs more = false ↔ refs + more ≤ 4) := by
+  refine ⟨⟨?_, ?_, ?_⟩, ?_, ?_, ?_⟩
+  · simp only [Generated.refsFull_sideOk]; src_arith
+  · simp only [Generated.cellRefsOverflow_sideOk]; src_arith
+  · simp only [Generated.sliceRefsOverflow_sideOk]; src_arith
+  · simp only [Generated.refsFull, decide_eq_false_iff_not] <;> omega
+  · simp only [Generated.cellRefsOverflow, decide_eq_false_iff_not] <;> omega
+  · simp only [Generated.sliceRefsOverflow, decide_eq_false_iff_not] <;> omega
+
+/-- read bound and constructor bound: `check_underflow` raises exactly when more bits are requested than remain;
+`TvmBitarray(size)` refuses exactly sizes above 1023. -/
+theorem c07_src_read_bound (remaining length size : Nat) :
+    (Generated.bitsUnderflow_sideOk remaining length ∧ Generated.sizeTooLarge_sideOk size) ∧
+    (Generated.bitsUnderflow remaining length = false ↔ length ≤ remaining) ∧
+    (Generated.sizeTooLarge size = false ↔ size ≤ 1023) := by
+  refine ⟨⟨?_, ?_⟩, ?_, ?_⟩
+  · simp only [Generated.bitsUnderflow_sideOk]; src_arith
+  · simp only [Generated.sizeTooLarge_sideOk]; src_arith
+  · simp only [Generated.bitsUnderflow, decide_eq_false_iff_not]; split <;> simp <;> omega
+  · simp only [Generated.sizeTooLarge, decide_eq_false_iff_not] <;> omega
+
+/-- the hand model's capacity tests (what `c07_invariant`, `c07_refuse_iff`, `c07_read_bounds` are proved about) are the
+source's tests: `extend`, `storeRef`, `storeCell`, `storeSlice`, `delBits`. -/
+theorem c07_src_model_tests (xs : Bits) (r : R) (crefs : List R) (n : Nat) (b : Builder R) (s : Slice R) :
+    BOp.extend xs b = (if Generated.bitsOverflow b.bits.length xs.length then (b, false)
+                       else ({ b with bits := b.bits ++ xs }, true)) ∧
+    BOp.storeRef r b = (if Generated.refsFull b.refs.length then (b, false) else ({ b with refs := b.refs ++ [r] }, true)) ∧
+    (Generated.cellRefsOverflow b.refs.length crefs.length = true → BOp.storeCell xs crefs b = (b, false)) ∧
+    (Generated.sliceRefsOverflow b.refs.length crefs.length = true → BOp.storeSlice xs crefs b = (b, false)) ∧
+    (n ≠ 0 → Generated.bitsUnderflow s.bits.length n = true → SOp.delBits n s = (s, none)) := by
+  have h1 := (c07_src_bits_capacity b.bits.length xs.length).2.2
+  refine ⟨?_, ?_, ?_, ?_, ?_⟩
+  · rw [h1]; unfold BOp.extend; by_cases h : b.bits.length + xs.length > 1023 <;> simp [h]
+  · have : Generated.refsFull b.refs.length = decide (b.refs.length ≥ 4) := by
+      simp only [Generated.refsFull, decide_eq_decide] <;> omega
+    rw [this]; unfold BOp.storeRef; by_cases h : b.refs.length ≥ 4 <;> simp [h]
+  · intro h
+    have : b.refs.length + crefs.length > 4 := by
+      have := (c07_src_refs_capacity b.refs.length crefs.length).2.2.1; simp [h] at this; omega
+    simp [BOp.storeCell, this]
+  · intro h
+    have : b.refs.length + crefs.length > 4 := by
+      have := (c07_src_refs_capacity b.refs.length crefs.length).2.2.2; simp [h] at this; omega
+    simp [BOp.storeSlice, this]
+  · intro hn h
+    have : s.bits.length < n := by
+      have := (c07_src_read_bound s.bits.length n 0).2.1; simp [h] at this; omega
+    simp [SOp.delBits, hn, this]
+
+/-- concrete values of the regenerated tests at the capacity boundary (hypotheses of `c07_src_model_tests` are met: a full
+builder, an over-read). -/
+example : Generated.bitsOverflow 1000 23 = false ∧ Generated.bitsOverflow 1000 24 = true ∧ Generated.refsFull 3 = false ∧
+    Generated.refsFull 4 = true ∧ Generated.cellRefsOverflow 2 3 = true ∧ Generated.bitsUnderflow 3 4 = true := by decide
+
+end Src
 
 end TonVerif.Properties.C07
